@@ -323,15 +323,17 @@ class Gen:
         return True
 
     def s_outer(self):
-        a = self.pick(lambda v: len(v['shape']) == 1)
-        b = self.pick(lambda v: len(v['shape']) == 1)
+        # mostly vectors; also matrices (numpy.outer flattens operands of any rank)
+        rk = (1, 2) if self.rng.random() < 0.3 else (1,)
+        a = self.pick(lambda v: len(v['shape']) in rk and int(np.prod(v['shape'])) <= 4)
+        b = self.pick(lambda v: len(v['shape']) in rk and int(np.prod(v['shape'])) <= 4)
         if a is None or b is None:
             return False
         iv = _imul(self.vars[a]['iv'], self.vars[b]['iv'])
         if not self.ok_mag(iv):
             return False
         self.steps.append({'op': 'outer', 'a': a, 'b': b})
-        self.new(self.vars[a]['shape'] + self.vars[b]['shape'], iv)
+        self.new((int(np.prod(self.vars[a]['shape'])), int(np.prod(self.vars[b]['shape']))), iv)
         return True
 
     def s_buffer(self):
@@ -395,7 +397,14 @@ class Gen:
             self.vars[buf]['iv'] = (lo, hi)
         for g in views:
             self.vars[g]['iv'] = (lo, hi)
+        self.vars[buf]['views'] = views
         return True
+
+    def widen(self, buf, iv):
+        """a later write into a buffer changes the value of the buffer and of every view of it"""
+        self.vars[buf]['iv'] = iv
+        for g in self.vars[buf].get('views', []):
+            self.vars[g]['iv'] = (min(iv[0], self.vars[g]['iv'][0]), max(iv[1], self.vars[g]['iv'][1]))
 
     def s_bufferconst(self):
         """a buffer as in s_buffer, then an entry that is already active (written from a traced value, possibly read back and
@@ -410,7 +419,7 @@ class Gen:
         c = self.rng.choice([2.0, -0.5, 0.0, 1.25])
         self.steps.append({'op': 'setconst', 'buf': st['buf'], 'idx': list(st['idx']), 'c': c})
         lo, hi = self.vars[st['buf']]['iv']
-        self.vars[st['buf']]['iv'] = (min(lo, c), max(hi, c))
+        self.widen(st['buf'], (min(lo, c), max(hi, c)))
         return True
 
     def s_bufferiop(self):
@@ -431,7 +440,7 @@ class Gen:
         self.steps.append({'op': 'iopview', 'buf': buf, 'lo': lo, 'hi': hi, 'fn': fn, 'c': c})
         l, h = self.vars[buf]['iv']
         cand = {'mul': [l * c, h * c], 'div': [l / c, h / c], 'add': [l + c, h + c], 'sub': [l - c, h - c]}[fn]
-        self.vars[buf]['iv'] = (min(l, *cand), max(h, *cand))
+        self.widen(buf, (min(l, *cand), max(h, *cand)))
         return True
 
     def s_buffer2d(self):
@@ -452,6 +461,73 @@ class Gen:
                 self.steps.append({'op': 'setbc', 'buf': buf, 'val': sc, 'mode': 'col', 'k': k})
                 lo, hi = min(lo, self.vars[sc]['iv'][0]), max(hi, self.vars[sc]['iv'][1])
         self.vars[buf]['iv'] = (lo, hi)
+        return True
+
+    def s_cplxparts(self):
+        """real value -> complex intermediate z (x*(1+2j) or fft(x)) -> real value, where real(z) / imag(z) are taken while z has
+        another consumer recorded before or after, or twice (the adjoint of z is accumulated from several nodes)"""
+        a = self.pick(lambda v: len(v['shape']) in (1, 2) and max(abs(v['iv'][0]), abs(v['iv'][1])) <= 2.5 and not v.get('buf'))
+        if a is None:
+            return False
+        sh = self.vars[a]['shape']
+        src = self.rng.choice(['scale', 'fft'])
+        mode = self.rng.choice(['imag_then', 'then_imag', 'imag_twice', 'real_then', 'then_real', 'real_twice', 'imag_real'])
+        m = max(abs(self.vars[a]['iv'][0]), abs(self.vars[a]['iv'][1])) * (3.0 if src == 'scale' else float(sh[-1]))
+        M = m * m + 2 * m
+        if M > 60:
+            return False
+        self.steps.append({'op': 'cplxparts', 'a': a, 'src': src, 'mode': mode})
+        self.new(sh, (-M, M))
+        return True
+
+    def s_tri(self):
+        """lower / upper triangle of a matrix value"""
+        a = self.pick(lambda v: len(v['shape']) == 2 and not v.get('buf'))
+        if a is None:
+            return False
+        lo, hi = self.vars[a]['iv']
+        self.steps.append({'op': 'tri', 'fn': self.rng.choice(['tril', 'triu']), 'a': a})
+        self.new(self.vars[a]['shape'], (min(lo, 0.0), max(hi, 0.0)))
+        return True
+
+    def s_setarr(self):
+        """a buffer as in s_buffer, then a slice (or one entry) of it is overwritten by a constant ndarray"""
+        n0 = len(self.steps)
+        if not self.s_buffer():
+            return False
+        sets = [st for st in self.steps[n0:] if st['op'] == 'setitem']
+        if not sets:
+            return True
+        buf = sets[0]['buf']
+        n = self.vars[buf]['shape'][0]
+        lo = self.rng.randrange(n)
+        hi = self.rng.randint(lo + 1, n)
+        c = [self.rng.choice([2.0, -0.5, 0.0, 1.25]) for _ in range(hi - lo)]
+        self.steps.append({'op': 'setarr', 'buf': buf, 'lo': lo, 'hi': hi, 'c': c, 'zerod': hi - lo == 1 and self.rng.random() < 0.5})
+        l, h = self.vars[buf]['iv']
+        self.widen(buf, (min([l] + c), max([h] + c)))
+        return True
+
+    def s_realalias(self):
+        """a (real) buffer as in s_buffer, r = real(buffer) (NumPy: the array itself), then a write through one of the two
+        names and a read through the other"""
+        n0 = len(self.steps)
+        if not self.s_buffer():
+            return False
+        sets = [st for st in self.steps[n0:] if st['op'] == 'setitem']
+        if not sets:
+            return True
+        buf = sets[0]['buf']
+        n = self.vars[buf]['shape'][0]
+        v = self.pick(lambda w: w['shape'] == () and not w.get('buf') and max(abs(w['iv'][0]), abs(w['iv'][1])) <= 6)
+        if v is None:
+            return True
+        k = self.rng.randrange(n)
+        self.steps.append({'op': 'realalias', 'buf': buf, 'k': k, 'val': v, 'mirror': self.rng.random() < 0.5})
+        l, h = self.vars[buf]['iv']
+        iv = (min(l, self.vars[v]['iv'][0]), max(h, self.vars[v]['iv'][1]))
+        self.widen(buf, iv)
+        self.new((n,), iv, view=True, buf=True)
         return True
 
     def s_fftfilter(self):
@@ -511,7 +587,8 @@ class Gen:
         for sh in input_shapes:
             self.new(sh, (-BOX, BOX))
         kinds = kinds or ['ew', 'ew', 'bin', 'bin', 'binc', 'getitem', 'sum', 'transpose', 'reshape', 'dot', 'dotc',
-                          'outer', 'prod', 'buffer', 'linalg', 'fftfilter', 'buffer2d', 'symvec', 'bufferconst', 'bufferiop']
+                          'outer', 'prod', 'buffer', 'linalg', 'fftfilter', 'buffer2d', 'symvec', 'bufferconst', 'bufferiop',
+                          'cplxparts', 'tri', 'setarr', 'realalias']
         nsteps = self.rng.randint(1, self.maxsteps)
         tries = 0
         made = 0
@@ -654,6 +731,44 @@ def run_program(prog, inputs):
             v = vals[st['a']]
             z = (algopy.fft.ifft if st['inv'] else algopy.fft.fft)(v, axis=st['axis'])
             vals.append(algopy.real(z) * 0.75 + algopy.imag(z) * 1.25)
+        elif op == 'cplxparts':
+            v = vals[st['a']]
+            z = v * (1.0 + 2.0j) if st['src'] == 'scale' else algopy.fft.fft(v, axis=-1)
+            mode = st['mode']
+            if mode == 'imag_then':
+                i_ = algopy.imag(z)
+                vals.append(i_ + algopy.real(z * z))
+            elif mode == 'then_imag':
+                w = algopy.real(z * z)
+                vals.append(algopy.imag(z) + w)
+            elif mode == 'imag_twice':
+                vals.append(algopy.imag(z) * algopy.imag(z))
+            elif mode == 'real_then':
+                r_ = algopy.real(z)
+                vals.append(r_ + algopy.imag(z * z))
+            elif mode == 'then_real':
+                w = algopy.imag(z * z)
+                vals.append(algopy.real(z) + w)
+            elif mode == 'real_twice':
+                vals.append(algopy.real(z) * algopy.real(z))
+            else:
+                i_ = algopy.imag(z)
+                r_ = algopy.real(z)
+                vals.append(i_ * r_ + algopy.real(z * z) * 0.5)
+        elif op == 'tri':
+            vals.append(getattr(algopy, st['fn'])(vals[st['a']]))
+        elif op == 'setarr':
+            if st.get('zerod'):
+                vals[st['buf']][st['lo']] = np.array(st['c'][0])
+            else:
+                vals[st['buf']][st['lo']:st['hi']] = np.array(st['c'])
+        elif op == 'realalias':
+            r = algopy.real(vals[st['buf']])
+            if st['mirror']:
+                vals[st['buf']][st['k']] = vals[st['val']]
+            else:
+                r[st['k']] = vals[st['val']]
+            vals.append(r)
         elif op == 'outerc':
             c = np.array(st['c'])
             vals.append(algopy.outer(vals[st['a']], c) if st['side'] == 'r' else algopy.outer(c, vals[st['a']]))
@@ -689,6 +804,14 @@ def run_program(prog, inputs):
         else:
             raise ValueError(op)
     return vals[prog['out']]
+
+
+NOVALUE = ('setitem', 'iopview', 'setconst', 'setbc', 'setarr')
+
+
+def nvars(prog):
+    """number of values (inputs and step results) of a program"""
+    return len(prog['inputs']) + sum(1 for st in prog['steps'] if st['op'] not in NOVALUE)
 
 
 def trace(prog, xs):
